@@ -227,7 +227,7 @@ impl<'a> Exec<'a> {
         &self.maps[m].model
     }
 
-    fn key(&self, k: u16) -> Vec<u8> {
+    fn key(&self, k: u32) -> Vec<u8> {
         let ms = &self.maps[self.curm];
         ms.keys[k as usize % ms.keys.len()].clone()
     }
@@ -1594,7 +1594,7 @@ pub fn model_after(h: &History, n_ops: usize) -> Vec<BTreeMap<Vec<u8>, Vec<u8>>>
         .collect();
     let mut models: Vec<BTreeMap<Vec<u8>, Vec<u8>>> = vec![BTreeMap::new(); h.maps.len()];
     let mut cur = 0usize;
-    let key = |m: usize, k: u16| -> Vec<u8> { keys[m][k as usize % keys[m].len()].clone() };
+    let key = |m: usize, k: u32| -> Vec<u8> { keys[m][k as usize % keys[m].len()].clone() };
     for op in h.ops.iter().take(n_ops) {
         match op {
             Op::Put { k, v } => {
